@@ -46,6 +46,8 @@ TOpen == /\ Ev.e = "open"
          /\ (IF \E k \in DOMAIN st : st[k].tainted /\ ~st[k].closed THEN Flag("P09-new-connection-before-failed-one-closed") ELSE TRUE)
          /\ (IF \E k \in DOMAIN st : Healthy(st[k]) THEN Flag("P09-reconnect-although-connection-healthy") ELSE TRUE)
          /\ (IF healthyClosed THEN Flag("P09-healthy-connection-dropped") ELSE TRUE)
+         \* C10: a reply that arrived within the per-packet timeout must have been received - no reconnect in such a scenario
+         /\ (IF cfg.tag = "ontime" THEN Flag("P10-timeout-fired-early") ELSE TRUE)
          /\ st' = Set(Ev.conn, NoConn) /\ healthyClosed' = FALSE
          /\ UNCHANGED <<cfg, sc, incall>>
 
